@@ -447,6 +447,16 @@ def foreign_expected(rng):
          ["$EndNodes", "$Elements", str(len(tt))] + ["%d 4 2 0 1 %d %d %d %d" % ((i + 1,) + tuple(int(x) + 1 for x in q)) for i, q in enumerate(tt)] + ["$EndElements"]
     out.append(("gmsh", lg, "gmsh22", (tv, tt)))
     out.append(("gmsh", lg[:-3], "gmsh-truncated", None))
+    # files whose first / middle / last nodes are referenced by no tetrahedron (geometry points of the CAD model), sub-collections of the
+    # tetrahedra, other numbers of tags: node number - 1 is the index, whatever the smallest referenced node is
+    for nm2, lead, trail, ntag, sel in (("gmsh-leading-free-nodes", 2, 0, 2, slice(None)), ("gmsh-trailing-free-nodes", 0, 2, 3, slice(None)),
+                                        ("gmsh-first-node-unused-subset", 1, 1, 0, slice(1, None))):
+        tv2 = np.vstack([np.full((lead, 3), -7.5), tv, np.full((trail, 3), 9.25)])
+        tt2 = np.asarray(tt)[sel] + lead
+        tags = {0: "0", 2: "2 0 1", 3: "3 0 1 4"}[ntag]
+        lg2 = ["$MeshFormat", "2.2 0 8", "$EndMeshFormat", "$Nodes", str(len(tv2))] + ["%d %s" % (i + 1, " ".join(repr(float(x)) for x in p)) for i, p in enumerate(tv2)] + \
+              ["$EndNodes", "$Elements", str(len(tt2))] + ["%d 4 %s %d %d %d %d" % ((i + 1, tags) + tuple(int(x) + 1 for x in q)) for i, q in enumerate(tt2)] + ["$EndElements"]
+        out.append(("gmsh", lg2, nm2, (tv2, tt2)))
     # wrong kind / malformed
     out.append(("vtk4", lines, "tri-file-to-tet-reader", None))
     out.append(("vtk3", lines[:3] + ["BINARY"] + lines[4:], "vtk-binary", None))
